@@ -30,7 +30,13 @@ RULE = (
     "Identifier-collision sequences (stream str/bin typed, JSON lines): a legitimate descriptor + record, then a crafted "
     "out-of-grammar definition that re-splits the same (fieldname+fieldtype) characters and therefore carries the SAME (name, "
     "hash) identifier + a record using it: nothing behind the crafted descriptor may be delivered and every delivered record "
-    "carries the legitimate definition.  Seeded part: random single-character mutations of valid "
+    "carries the legitimate definition.  Order dependence: every invalid field-type string (incl. T[][] / T[][][] for every "
+    "whitelisted T, prefixes of dotted paths, near misses of every whitelisted name) is delivered cold AND again after every "
+    "whitelisted T and T[] has been resolved in the process (constructor, frame, JSON line); near misses of a type name after "
+    "the name itself was accepted with the same fields.  Grouped-record frames: valid member descriptor frames followed by a "
+    "grouped frame (ext sub-type 0x12) whose group name is each hostile type-name string; the yielded object is left alone, "
+    "copied to a RecordStreamWriter (output decoded by the independent codec), asked for _desc / repr / JSON: an out-of-grammar "
+    "group name must never be yielded or re-emitted.  Seeded part: random single-character mutations of valid "
     "identifiers at random positions of random definitions, and random grammar-valid definitions (vacuity control).  A case is "
     "non-trivial when the delivery ran to an accept/reject outcome; distinct = distinct (definition fingerprint, path).  Oracle "
     "(one-directional): accepted => definition is in the hand-written reference grammar; for accepted definitions __slots__ == "
@@ -87,6 +93,16 @@ def build_pools(trip):
     }
     for site, lst in pay.items():
         pools["pay_" + site] = list(lst)
+    wl = H.PINNED_WHITELIST
+    # invalid type strings DERIVED from valid ones: stacked list forms, prefixes of dotted paths, near misses
+    pools["stacked"] = [w + "[][]" for w in wl] + [w + "[][][]" for w in wl[::4]]
+    prefixes = sorted(set(w.rsplit(".", k)[0] for w in wl if "." in w for k in (1, 2)) - set(wl))
+    pools["prefix"] = prefixes + [x + "." for x in prefixes]
+    near = []
+    for w in wl:
+        near += [w + "\n", w + " ", " " + w, w + "\x00", w + "[]\n", w + "[] ", w + "[ ]", w + ".", "." + w, w + "[]x", w + "\r", w.upper(), w.capitalize()]
+    pools["near_types"] = [x for x in dict.fromkeys(near) if not H.valid_field_type(x, wl)]
+    pools["affix"] = ["\n", " ", "\r", "\t", "\x00", "\r\n", "\x0b", "\x0c", "\u2028", "\xa0", "/", ".", "\n\n", "_\n"]
     return pools
 
 
@@ -180,16 +196,45 @@ def _enum_recipes():
     for i in range(_POOL_SIZES["tname"]):
         out.append({"k": "enum", "slot": "name", "pool": "tname", "i": i, "var": "whole"})
         out.append({"k": "enum", "slot": "name", "pool": "tname", "i": i, "var": "whole0"})
-    for pool in ("ftype", "pay_class", "pay_dict", "near", "uni"):
+    for pool in ("ftype", "pay_class", "pay_dict", "near", "uni", "stacked", "prefix", "near_types"):
         for i in range(_POOL_SIZES[pool]):
             for lst in (False, True):
                 out.append({"k": "enum", "slot": "type", "pool": pool, "i": i, "list": lst})
     return out
 
 
+def _warm_recipes():
+    """The same invalid strings AFTER the valid definitions they are derived from were resolved in this process (the
+    verdict for a definition must not depend on what was resolved earlier): every invalid field type after every
+    whitelisted T and T[] has been used; near misses of a type name after the name itself was accepted with the same
+    fields.  Emitted after the cold enumeration, so that each string is seen in both states."""
+    out = []
+    for pool in ("ftype", "stacked", "prefix", "near_types", "near", "uni", "pay_dict"):
+        for i in range(_POOL_SIZES[pool]):
+            for lst in (False, True):
+                out.append({"k": "enum", "slot": "type", "pool": pool, "i": i, "list": lst, "warm": True})
+    for i in range(_POOL_SIZES["affix"]):
+        for side in ("suffix", "prefix", "segment"):
+            out.append({"k": "enum", "slot": "name", "pool": "affix", "i": i, "var": side, "warm": True})
+    return out
+
+
+def _grouped_recipes():
+    out = []
+    for pool in STRING_POOLS + ("tname", "affix"):
+        for i in range(_POOL_SIZES[pool]):
+            for var in ("whole", "last"):
+                out.append({"k": "grouped", "pool": pool, "i": i, "var": var, "bin": (i + len(out)) % 3 == 0})
+    for j in range(32):
+        out.append({"k": "grouped", "pool": None, "i": j, "var": "valid", "bin": j % 2 == 1})
+    return out
+
+
 def vias_for(recipe):
     if recipe["k"] == "enum":
         slot = recipe["slot"]
+        if recipe.get("warm"):
+            return ("api", "stream", "json", "api-text")
         if slot == "name":
             return ("api", "api-bytes", "stream", "stream-bin", "json", "avro-doc", "avro-nodoc") + TEXT_VIAS
         if slot == "field":
@@ -205,6 +250,15 @@ def generate(ctx):
             if ctx.mine(idx):
                 yield dict(rec, via=via)
             idx += 1
+    for rec in _warm_recipes():
+        for via in vias_for(rec):
+            if ctx.mine(idx):
+                yield dict(rec, via=via)
+            idx += 1
+    for rec in _grouped_recipes():
+        if ctx.mine(idx):
+            yield dict(rec, via="stream-grouped")
+        idx += 1
     for j, (lname, lfields) in enumerate(COLLIDE_FIXED):
         for via in COLLIDE_VIAS:
             if ctx.mine(idx):
@@ -248,6 +302,11 @@ def build_def(st, case):
     if k == "enum":
         s = st["pools"][case["pool"]][case["i"]]
         slot = case["slot"]
+        if slot == "name" and case.get("warm"):
+            base = "warm/n%d" % case["i"]
+            name = {"suffix": base + s, "prefix": s + base, "segment": "warm" + s + "/n%d" % case["i"]}[case["var"]]
+            return name, [("string", "x")], {"slot": "name-after-valid", "family": "affix", "hostile": s, "uniq": True,
+                                              "pre": [(base, [("string", "x")])]}
         if slot == "name":
             var = case["var"]
             name = {"whole": s, "whole0": s, "last": "t/" + s, "first": s + "/t", "middle": "a/" + s + "/b"}[var]
@@ -261,7 +320,8 @@ def build_def(st, case):
             fields.insert(case["pos"], ("string", s))
             return "t/f", fields, {"slot": slot, "family": case["pool"], "hostile": s, "uniq": True}
         t = s + ("[]" if case["list"] else "")
-        return "t/y", [("string", "p"), (t, "x")], {"slot": slot, "family": case["pool"], "hostile": t, "uniq": True}
+        return "t/y", [("string", "p"), (t, "x")], {"slot": slot + ("-warm" if case.get("warm") else ""), "family": case["pool"], "hostile": t,
+                                                    "uniq": True, "warm_types": bool(case.get("warm"))}
     rng = random.Random(case["s"])
     name = _valid_typename(rng)
     fields = _valid_fields(rng, rng.choice([0, 1, 1, 2, 3, 4, 6]), wl)
@@ -503,6 +563,148 @@ def execute_collide(ctx, case):
                               detail=dict(detail, source=src[:1200]))
         ctx.nontrivial("collide", via, fp64(legit, crafted))
         ctx.sample({"case": case, "legitimate": legit, "crafted": crafted, "outcome": detail["exception"]}, kind="collide:" + via)
+
+
+# ---- grouped-record frames: the group name is a record type name too -------------------------------------
+GROUP_VALID_NAMES = ["group/x", "g", "a/b/c", "Record", "args/kwargs", "G1_/x9", "class/x", "x/class", "group", "t", "class", "None"]
+
+
+def grouped_stream(gname, members, binary):
+    """Valid member descriptor frames, then ONE grouped frame [name, [[identifier, values] ...]] (ext sub-type 0x12)."""
+    S = (lambda x: mp.Bin(_enc(x))) if binary else (lambda x: mp.Str(_enc(x)))
+    enc = refcodec.Encoder()
+    enc.header()
+    packed = []
+    for mname, mfields in members:
+        enc._frame(enc.p.pack(enc._ext(refcodec.T_DESC, [mp.Str.of(mname), [[mp.Str.of(t), mp.Str.of(n)] for t, n in mfields]])))
+        values = [None] * len(mfields) + [None, None, None, 1]
+        packed.append([[mp.Str.of(mname), refcodec.descriptor_hash(mname, mfields)], values])
+    enc._frame(enc.p.pack(enc._ext(refcodec.T_GROUPED, [S(gname), packed])))
+    return enc.getvalue()
+
+
+def execute_grouped(ctx, case):
+    """A grouped frame over perfectly valid member descriptors whose GROUP NAME is hostile.  Whatever the consumer does
+    with what the reader yields (nothing, copy to a stream writer, _desc / repr / JSON), an out-of-grammar name must
+    never be accepted: not yielded, not re-emitted."""
+    from flow.record import RecordStreamReader, RecordStreamWriter
+
+    st = ctx.state
+    wl = st["whitelist"]
+    if case["var"] == "valid":
+        s = GROUP_VALID_NAMES[case["i"] % len(GROUP_VALID_NAMES)]
+        gname = s
+    else:
+        s = st["pools"][case["pool"]][case["i"]]
+        gname = s if case["var"] == "whole" else "g/" + s
+    st["uniq"] += 1
+    u = "u%dx%d" % (ctx.shard, st["uniq"])
+    members = [("gm/a", [("string", "x"), ("varint", u)]), ("gm/b", [("string", "y"), ("string", "x")])]
+    flat = [("string", "x"), ("varint", u), ("string", "y")]
+    try:
+        data = grouped_stream(gname, members, case["bin"])
+    except (NotApplicable, UnicodeEncodeError):
+        ctx.event("not_applicable:stream-grouped")
+        return
+    valid = H.valid_type_name(gname)
+    spy = st["spy"]
+    spy.drain()
+    marker = st["trip_marker"]
+    trips = []
+
+    def flt(event, args):
+        if event in ("os.system", "subprocess.Popen") or (event == "open" and args and marker in repr(args[0])):
+            trips.append((event, repr(args)[:200]))
+        return False
+
+    got, exc, consumers = [], None, {}
+    with probes.AuditLog(("os.system", "subprocess.Popen", "open"), filter=flt):
+        try:
+            for r in RecordStreamReader(io.BytesIO(data)):
+                got.append(r)
+        except Exception as e:  # noqa: BLE001 - any exception class is a rejection
+            exc = e
+        reemitted = []
+        for r in got:
+            # (b) copy to a stream writer and look at the bytes with the independent decoder
+            try:
+                buf = io.BytesIO()
+                w = RecordStreamWriter(buf)
+                w.write(r)
+                w.flush()
+                out = buf.getvalue()
+                w.fp = None
+                consumers["copy"] = "ok"
+                try:
+                    dec = refcodec.decode_stream(out)
+                    reemitted += [e[1] for e in dec.events if e[0] == "GREC"]
+                except Exception:  # noqa: BLE001 - the reference codec refuses the output: not a re-emitted group name
+                    consumers["copy"] = "undecodable"
+            except Exception as e:  # noqa: BLE001
+                consumers["copy"] = type(e).__name__
+            # (c) consumers that need the flat descriptor
+            for what, fn in (("_desc", lambda: r._desc.name), ("repr", lambda: repr(r)), ("json", lambda: _json_pack(r))):
+                try:
+                    fn()
+                    consumers[what] = "ok"
+                except Exception as e:  # noqa: BLE001
+                    consumers[what] = type(e).__name__
+    sources = spy.drain()
+    ctx.ev()
+    ctx.event("delivered:stream-grouped")
+    ctx.event("grouped_frames")
+    detail = {"group_name": gname, "binary": case["bin"], "members": members, "yielded": len(got),
+              "exception": type(exc).__name__ if exc is not None else None, "consumers": consumers}
+    ctx.cell("grouped", case["pool"] or "valid", case["var"], "yielded" if got else "refused", "valid" if valid else "invalid")
+    if trips:
+        ctx.violation(None, "tripwire: %s fired while a grouped frame was processed" % trips[0][0], detail=dict(detail, events=trips[:5]))
+    for tp in (st["trip"], st["trip_mangled"]):
+        if os.path.exists(tp):
+            os.unlink(tp)
+            ctx.violation(None, "tripwire file was created while a definition was processed", detail=detail)
+    for r in got:
+        rname = getattr(r, "name", None)
+        if not H.valid_type_name(rname):
+            ctx.violation(None, "grouped record with an out-of-grammar group name was yielded by the stream reader", detail=dict(detail, yielded_name=rname))
+        else:
+            ctx.event("grouped_valid_name_yielded")
+            if valid and consumers.get("_desc") == "ok":
+                try:
+                    d = r._desc
+                    if d.name != gname or [(t, n) for t, n in d.get_field_tuples()] != flat:
+                        ctx.violation(None, "flat descriptor of a grouped record differs from group name + union of the members' fields",
+                                      detail=dict(detail, reported=[d.name, list(d.get_field_tuples())]))
+                    observe.assert_typed(r, "grouped")
+                except observe.Untyped as e:
+                    ctx.violation(None, "grouped record read from a crafted frame holds an untyped slot", detail=dict(detail, error=str(e)))
+    for n in reemitted:
+        if not H.valid_type_name(n):
+            ctx.violation(None, "an out-of-grammar group name was re-emitted into an output stream", detail=dict(detail, reemitted=n))
+    if not got:
+        ctx.event("grouped_refused_by:" + (type(exc).__name__ if exc is not None else "nothing"))
+        if valid:
+            ctx.event("grouped_valid_refused_keyword" if H.keyword_refusal_expected(gname) else "grouped_valid_refused_other")
+        else:
+            ctx.event("invalid_rejected")
+    for src in sources:
+        ctx.event("exec_sources")
+        status, shp = source_shape(src) if isinstance(src, str) else ("nonstr", None)
+        ctx.event("exec_source:" + status)
+        if status != "compiled":
+            continue
+        shapes = [twin_shape(st, f, wl) for f in (flat, members[0][1], members[1][1])]
+        ctx.event("shape_compared")
+        if shp not in [x for x in shapes if x is not None]:
+            ctx.violation(None, "source handed to exec has a different parse-tree shape than its benign twin (injection)",
+                          detail=dict(detail, source=src[:1200]))
+    ctx.nontrivial("grouped", gname, case["bin"])
+    ctx.sample({"case": case, "group_name": gname, "yielded": len(got), "exception": detail["exception"]}, kind="grouped:%s" % ("yielded" if got else "refused"))
+
+
+def _json_pack(r):
+    from flow.record import JsonRecordPacker
+
+    return JsonRecordPacker().pack(r)
 
 
 # ---- delivery paths ----------------------------------------------------------------------------------
@@ -819,9 +1021,30 @@ def _check_record(ctx, st, via, desc, r, declared_fields, given, what):
 
 
 # ---- execute -----------------------------------------------------------------------------------------
+def warm_all_types(ctx, st):
+    """Once per process: resolve every whitelisted field type in scalar and list form through the constructor, a
+    descriptor frame and a JSON line (valid definitions; what they leave behind in caches must not change any later verdict)."""
+    if st.get("warm_done"):
+        return
+    st["warm_done"] = True
+    wl = list(st["whitelist"])
+    for k in range(0, len(wl), 9):
+        chunk = wl[k : k + 9]
+        fields = [(t, "s%d" % i) for i, t in enumerate(chunk)] + [(t + "[]", "l%d" % i) for i, t in enumerate(chunk)]
+        for via in ("api", "stream", "json"):
+            try:
+                if _deliver(st, via, "warm/types%d" % k, fields):
+                    ctx.event("warmup_definitions_accepted")
+            except Exception:  # noqa: BLE001
+                ctx.event("warmup_definitions_refused")
+    st["spy"].drain()
+
+
 def execute(ctx, case):
     if case["k"] == "collide":
         return execute_collide(ctx, case)
+    if case["k"] == "grouped":
+        return execute_grouped(ctx, case)
     st = ctx.state
     wl = st["whitelist"]
     via = case["via"]
@@ -834,6 +1057,15 @@ def execute(ctx, case):
         while u in [n for _, n in fields]:
             u += "_"
         fields.append(("string", u))
+    if info.get("warm_types"):
+        warm_all_types(ctx, st)
+    for pname, pfields in info.get("pre", ()):
+        pf = list(pfields) + ([fields[-1]] if info["uniq"] else [])
+        try:
+            if _deliver(st, via, pname, pf):
+                ctx.event("predecessor_accepted")
+        except Exception:  # noqa: BLE001 - the predecessor is only there to put the process into the 'after' state
+            ctx.event("predecessor_refused")
     if via in TEXT_VIAS:
         denoted = parse_text(definition_text(name, fields))
         if denoted is not None and len(set(n for _, n in denoted[1])) != len(denoted[1]):
@@ -1035,6 +1267,8 @@ def finish(ctx):
     ctx.require(ev.get("exec_sources", 0) > 0, "the exec spy never saw a source (shadowing flow.record.base.exec did not take effect)")
     ctx.require(ev.get("shape_compared", 0) > 0, "no exec'd source was compared with a twin")
     ctx.require(ev.get("tripwire_windows", 0) > 0, "tripwires never armed")
+    ctx.require(ev.get("grouped_frames", 0) == 0 or ev.get("grouped_valid_name_yielded", 0) > 0,
+                "no grouped frame with a valid group name was yielded (vacuous)")
     ctx.require(ev.get("collide_sequences", 0) > 0 and ev.get("collide_legitimate_record_delivered", 0) > 0,
                 "no identifier-collision sequence delivered its legitimate record (sequence class never ran)")
     for v in TEXT_VIAS:
